@@ -216,6 +216,8 @@ def exec_field(case):
 
     field, mode = case["field"], case["mode"]
     v1, v2, base = FIELDS[field]
+    if case.get("base") == "bitmap":  # the same option in a bitmap build (its observable is the same; nothing else may move)
+        base = dict(BITMAP)
     glyphs = sources(stick=field == "clip_to_viewbox")
     srcs_text = [(f"emoji_u{'_'.join('%04x' % c for c in g.cps)}.svg", g.svg()) for g in glyphs]
     file_cfg = dict(base)
@@ -248,6 +250,13 @@ def exec_field(case):
         exp = expected(field, want, base, glyphs)
         if not matches(field, exp, got, cfg):
             return [bad("C20.option-reaches-font", f"{field} given by {mode} (value {want!r}): observable is {got!r}, expected {exp!r}")]
+        if "CBLC" in font and field != "bitmap_resolution":
+            # an option that is not the strike size leaves the strike size alone: ppem = round(upem x bitmap height / em height)
+            want_ppem = round(eff["upem"] * eff["bitmap_resolution"] / (eff["ascender"] - eff["descender"]))
+            ppems = [s_.bitmapSizeTable.ppemX for s_ in font["CBLC"].strikes]
+            if ppems != [want_ppem]:
+                return [bad("C20.option-reaches-font", f"{field} given by {mode} (value {want!r}) in a cbdt build: strike ppem {ppems}, expected [{want_ppem}] "
+                            f"(upem {eff['upem']}, bitmap height {eff['bitmap_resolution']}, em height {eff['ascender'] - eff['descender']})")]
         if field == "upem" and "COLR" in font and font["COLR"].version == 1:
             # clipbox_quantization is not given: its documented default is 2% of *this* upem (the C05 reference: round(0.02 * upem))
             step = round(0.02 * want)
@@ -348,6 +357,8 @@ def run(report, tier, only=None):
         conformance.run(report, tier)
     if only in (None, "fields"):
         cases = [{"kind": "field", "field": f, "mode": m} for f in FIELDS for m in ("flag", "file", "both", "omitted")]
+        # the metric options once more in a bitmap build
+        cases += [{"kind": "field", "field": f, "mode": m, "base": "bitmap"} for f in ("linegap", "upem", "ascender", "descender", "family") for m in ("flag", "both")]
         listing.run(report, cases, execute, timeout=600, jobs=6)
     if only in (None, "pairs"):
         names = list(CONFIGS)
